@@ -101,9 +101,17 @@ Out == Ref(pipe, src)
 Max(a, b) == IF a > b THEN a ELSE b
 Min(S) == CHOOSE x \in S : \A y \in S : x <= y
 Prefix(s, m) == SubSeq(s, 1, m)
-\* Need(c): the shortest source prefix whose eager output has c elements; the whole source when there is no c-th element
-Need(c) == IF Len(Out) < c THEN Len(src)
-           ELSE Min({m \in 0..Len(src) : Len(Ref(pipe, Prefix(src, m))) >= c})
+\* Need(c): the shortest source prefix that settles whether there is a c-th output element (as IterSpec!Need):
+\* it determines c elements or shows that the output has ended (take count reached, takeWhile met a failing element)
+RECURSIVE KnownClosed(_, _, _)
+KnownClosed(pp, s, closed) ==
+  IF pp = <<>> THEN closed
+  ELSE LET st == Head(pp) IN
+       CASE st.t = "take" -> KnownClosed(Tail(pp), SeqTake(s, st.n), closed \/ Len(s) >= st.n)
+         [] st.t = "tw"   -> KnownClosed(Tail(pp), SeqTakeWhile(s, st.p), closed \/ \E i \in 1..Len(s) : ~P(st.p, s[i]))
+         [] st.t = "dw"   -> KnownClosed(Tail(pp), SeqDropWhile(s, st.p), closed)
+         [] st.t = "flt"  -> KnownClosed(Tail(pp), SeqFilter(s, st.p), closed)
+Need(c) == Min({m \in 0..Len(src) : Len(Ref(pipe, Prefix(src, m))) >= c \/ KnownClosed(pipe, Prefix(src, m), FALSE)} \cup {Len(src)})
 DemandBound == Pulled(it) <= Need(demand) + 2 * Len(pipe)
 Init == /\ src \in Seqs
         /\ pipe \in {<<a>> : a \in Stages} \cup {<<a, b>> : a \in Stages, b \in Stages}
